@@ -2,6 +2,7 @@ package main
 
 import (
 	"bytes"
+	"regexp"
 	"os"
 	"os/exec"
 	"crypto/sha256"
@@ -183,7 +184,10 @@ func (o Obs) ExitStatus() int {
 }
 
 // FirstDiagnostic is stderr up to and including the first "[line N]".
+var ansiRE = regexp.MustCompile("\x1b\\[[0-9;]*[A-Za-z]")
+
 func FirstDiagnostic(stderr string) (text string, line int, ok bool) {
+	stderr = ansiRE.ReplaceAllString(stderr, "") // colours (a terminal was detected) do not change what is named
 	i := strings.Index(stderr, "[line ")
 	if i < 0 {
 		return stderr, 0, false
